@@ -74,6 +74,10 @@ func applyFaults(pk []*astits.Packet, f []fkind, dupDelay []int) []*astits.Packe
 			}
 		}
 		pending = keep
+		// the sender numbers its packets before anything is lost: a packet without payload repeats the counter of the packet the
+		// sender emitted before it, whether or not that one arrives
+		prevCC := lastCC[p.Header.PID]
+		lastCC[p.Header.PID] = p.Header.ContinuityCounter
 		switch f[k] {
 		case fDel:
 			continue
@@ -83,7 +87,7 @@ func applyFaults(pk []*astits.Packet, f []fkind, dupDelay []int) []*astits.Packe
 			out = append(out, q)
 			continue
 		case fAFOnly:
-			out = append(out, &astits.Packet{Header: astits.PacketHeader{PID: p.Header.PID, HasAdaptationField: true, ContinuityCounter: lastCC[p.Header.PID]},
+			out = append(out, &astits.Packet{Header: astits.PacketHeader{PID: p.Header.PID, HasAdaptationField: true, ContinuityCounter: prevCC},
 				AdaptationField: &astits.PacketAdaptationField{StuffingLength: 182}})
 			out = append(out, p)
 		case fDI:
@@ -104,7 +108,6 @@ func applyFaults(pk []*astits.Packet, f []fkind, dupDelay []int) []*astits.Packe
 		default:
 			out = append(out, p)
 		}
-		lastCC[p.Header.PID] = p.Header.ContinuityCounter
 	}
 	for _, d := range pending {
 		out = append(out, d.p)
@@ -341,7 +344,7 @@ func runC06(c *mon.Ctx) {
 		var m *gen.Model
 		var s *gen.Stream
 		for {
-			m = gen.RandomModel(r, gen.ModelOpts{MaxPES: 2, MaxPMT: 1, MaxSI: 1, MaxUnits: 4, Salt: true, MaxPESLen: 700, RichAF: true})
+			m = gen.RandomModel(r, gen.ModelOpts{MaxPES: 2, MaxPMT: 1, MaxSI: 1, MaxUnits: 4, Salt: true, MaxPESLen: 700, RichAF: true, Scrambled: i%4 == 1, SharedPMTPID: i%4 == 2})
 			if len(m.PIDs) < 2 || len(m.PIDs) > 4 {
 				continue
 			}
@@ -394,6 +397,19 @@ func runC06(c *mon.Ctx) {
 			cr.judge(c, "streams", i, f, applyFaults(s.Packets, f, nil), "loss")
 			c.Count("single_deletions")
 			c.Case(mon.HashStr("del", fmt.Sprint(i, k)), true)
+			// the same loss with a packet without payload (a PCR-only packet) as the first survivor of the PID: it carries the counter
+			// of the lost packet and must not hide the gap
+			for j := k + 1; j < N; j++ {
+				if s.Packets[j].Header.PID == s.Packets[k].Header.PID {
+					f2 := append([]fkind{}, f...)
+					f2[j] = fAFOnly
+					if planOK(s, f2) {
+						cr.judge(c, "streams", i, f2, applyFaults(s.Packets, f2, nil), "loss")
+						c.Count("deletions_followed_by_a_payloadless_packet")
+					}
+					break
+				}
+			}
 		}
 		// random multi-fault plans
 		np := int(c.Pick(40, 150))
